@@ -200,7 +200,7 @@ def build(active_known=frozenset()):
             (V.Val.i(a.result) == 0) == (V.Val.s(a.x) == V.Val.s(a.y)),
         ),
     )
-    NONNIL = T(lambda v: z3.Or(V.is_int(v), V.is_frac(v), V.is_str(v)), None, "int|Fraction|str")
+    NONNIL = T(lambda v: z3.Or(V.is_int(v), V.is_frac(v), V.is_str(v), V.is_flt(v), V.is_dec(v)), None, "int|Fraction|float|Decimal|str")
     c = pack.contract("basilisp.lang.runtime:compare")
     c.entry_live = True
     c.label = "nil-left"
@@ -213,6 +213,20 @@ def build(active_known=frozenset()):
     c.param("x", NONNIL).param("y", NONE)
     c.raises()
     c.ensures("everything is above nil", lambda a: V.Val.i(a.result) == 1)
+
+    def rp_nil(m, ctx, ob):
+        return (
+            "import decimal, fractions\nfrom basilisp.lang import runtime\nbad = []\n"
+            "for x in (0, -3, fractions.Fraction(1, 2), 1.5, float('nan'), decimal.Decimal('1.5'), decimal.Decimal('NaN'), '', 'a'):\n"
+            "    for args, want in (((x, None), 1), ((None, x), -1)):\n"
+            "        try:\n            r = runtime.compare(*args)\n        except Exception as e:\n            r = '%s: %s' % (type(e).__name__, e)\n"
+            "        if r != want:\n            bad.append('compare%r -> %r, expected %r' % (args, r, want))\n"
+            "print('\\n'.join(bad[:8]))\nprint('REPRODUCED' if bad else 'not reproduced')\n"
+        )
+
+    for c_ in pack.contracts[-2:]:
+        c_.replay(rp_nil)
+        c_.replay_without_model = True
 
     # compare on floats: NaN (documented design: compare with NaN is 0) -----------------------
     from pyvc import ops
@@ -411,4 +425,190 @@ def build(active_known=frozenset()):
         c.requires("the function is not `compare` itself (which is used as it is)", lambda a: z3.Not(_ops.eq_term(None, a.f, a.eng.lift(_rt.compare, a.pre.st))))
         c.ensures("a three-way function's number is passed through; for a boolean 'less than' function the comparator is -1 when (f x y), "
                   "1 when (f y x), 0 otherwise - asking f at most twice, with the arguments in that order", cmp_post)
+    add_sort(pack)
     return pack
+
+
+THREEWAY = z3.Function("derived_comparator", V.Val, V.Val, V.Val, z3.IntSort())   # _fn_to_comparator(f)(x, y)
+KEYFN = z3.Function("keyfn_of", V.Val, V.Val, V.Val)                                # keyfn(x) (a pure function of x)
+PY_SORTED = z3.Function("python_sorted", V.ValSeq, z3.IntSort(), V.ValSeq)          # sorted(items, key=<ordering no.>)
+SEQVIEW = z3.Function("elements_of_sequence", V.Val, V.ValSeq)                      # elements of lseq.sequence(...)
+
+
+class NonEmptySeq:
+    """stand-in for the (truthy) seq that to_seq returns for a non-empty collection"""
+
+
+class OpaqueFn:
+    """stand-in for a user's function"""
+
+
+def add_sort(pack):
+    """``sort`` and ``sort-by`` hand the collection to Python's ``sorted`` - trusted: a stable sort that returns a permutation
+    of its input ordered by ``<`` on the key objects.  What is proved here is what they hand over: the collection's own
+    elements, unchanged and in their original order (so that "stable" means stable with respect to the input), and key
+    objects whose ``<`` is exactly ``comparator(x, y) < 0`` resp. ``comparator(keyfn(x), keyfn(y)) < 0`` on the elements -
+    decided by running the local key class's ``__lt__`` on two arbitrary elements - and that what they return is the
+    sequence of that sorted list (the empty list for an empty collection)."""
+    import builtins
+
+    from basilisp.lang import list as llist, runtime as rt, seq as lseq, vector as vec
+    from pyvc import loops
+    from pyvc.engine import SV, Model, Raise, Unsupported
+
+    PV = vec.PersistentVector
+    ANYIDX = z3.Int("any_index")
+    PA, PB = z3.Const("probe_a", V.Val), z3.Const("probe_b", V.Val)
+
+    def elems(st, coll):
+        return V.seq_of(V.Val.a(z3.Select(st.field_array("_inner"), V.Val.a(coll))))
+
+    def ssetup(eng, st):
+        from pyvc import lib, ops
+
+        lib.install(eng)
+        lib.install_wrappers(eng)
+        for c in (PV, NonEmptySeq, OpaqueFn, list):
+            eng.class_id(c)
+        eng.opaque_havoc = "none"
+
+        def comparator_of(e, s, a, k):
+            f = e.lift(a[0], s)
+
+            def cmp(e2, s2, a2, k2):
+                x, y = (e2.lift(t, s2) for t in a2)
+                yield s2, SV(V.mk_int(THREEWAY(f, x, y)))
+
+            yield s, Model("the comparator derived from the user's function (contract: three_way above; an integer here)", cmp)
+
+        eng.models[id(rt._fn_to_comparator)] = Model("_fn_to_comparator (by contract)", comparator_of)
+
+        def to_seq(e, s, a, k):
+            coll = e.lift(a[0], s)
+            n = z3.Length(elems(s, coll))
+            s0 = s.copy()
+            s0.assume(n == 0)
+            if e.feasible(s0):
+                yield s0, None
+            s.assume(n > 0)
+            if e.feasible(s):
+                yield s, e.alloc(s, NonEmptySeq)
+
+        eng.models[id(lseq.to_seq)] = Model("lseq.to_seq (nil for an empty collection)", to_seq)
+
+        def sequence(e, s, a, k):
+            lst = a[0]
+            if not (isinstance(lst, SV) and lst.hint is list):
+                raise Unsupported("lseq.sequence of something other than a list")
+            r = V.fresh_val("sequence")
+            s.assume(V.is_ref(r), V.Val.a(r) <= 0, SEQVIEW(r) == z3.Select(s.lists, V.Val.a(lst.t)))
+            yield s, SV(r)
+
+        eng.models[id(lseq.sequence)] = Model("lseq.sequence (the elements of the list, in order)", sequence)
+
+        def sorted_(e, s, a, k):
+            if set(k) - {"key"} or len(a) != 1:
+                raise Unsupported("sorted() with reverse= or extra arguments")
+            src = loops._as_symiter(e, a[0], s)
+            n = src.length
+            probe = s.copy()
+            probe.assume(ANYIDX >= 0, ANYIDX < n)
+            item = e.lift(src.item(e, probe, ANYIDX), probe)
+            keyf = k.get("key")
+            lt = None
+            if keyf is not None:
+                outs = []
+                for s1, ka in e.call(keyf, [SV(PA)], {}, probe.copy()):
+                    if isinstance(ka, Raise):
+                        raise Unsupported("the key function raises on an arbitrary element")
+                    for s2, kb in e.call(keyf, [SV(PB)], {}, s1):
+                        if isinstance(kb, Raise):
+                            raise Unsupported("the key function raises on an arbitrary element")
+                        for s3, r in ops.ordering(e, __import__("ast").Lt(), ka, kb, s2):
+                            if isinstance(r, Raise):
+                                raise Unsupported("comparing two key objects raises")
+                            outs.append(e.truthy_term(r if isinstance(r, SV) else SV(e.lift(r, s3)), s3))
+                if len(outs) != 1:
+                    raise Unsupported("the ordering of two arbitrary key objects is not a single expression")
+                lt = z3.simplify(outs[0])
+            order = z3.Int(V.fresh_name("ordering"))
+            sv = e.alloc(s, list)
+            content = PY_SORTED(src.seq if src.seq is not None else z3.Const(V.fresh_name("generated_items"), V.ValSeq), order)
+            s.lists = z3.Store(s.lists, V.Val.a(sv.t), content)
+            s.ghost["sorted_calls"] = list(s.ghost.get("sorted_calls", [])) + [dict(n=n, item=item, lt=lt, order=order, content=content, result=sv.t)]
+            yield s, sv
+
+        eng.models[id(builtins.sorted)] = Model("sorted (trusted: a stable sort by < on the key objects)", sorted_)
+
+    def fn_value(name):
+        def mk(eng, st):
+            fterm = z3.Const(f"arg.{name}", V.Val)
+
+            def call(e, s, a, k):
+                yield s, SV(KEYFN(fterm, e.lift(a[0], s)))
+
+            return Model(f"{name} (a pure function of its argument)", call)
+
+        return mk
+
+    for which in ("sort", "sort_by"):
+        c = pack.contract(f"basilisp.lang.runtime:{which}")
+        c.label = "a vector"
+        if which == "sort":
+            c.param("coll", OBJ(PV)).param("f", OBJ(OpaqueFn))
+        else:
+            c.param("keyfn", OBJ(OpaqueFn)).param("coll", OBJ(PV)).param("cmp", OBJ(OpaqueFn))
+            c.param_value("keyfn", fn_value("keyfn"))
+        c.setup(ssetup)
+        c.raises()
+
+        def post(a, which=which):
+            pre, st = a.pre.st, a.post.st
+            items = elems(pre, a.coll)
+            calls = st.ghost.get("sorted_calls", [])
+            if not calls:
+                return z3.And(z3.Length(items) == 0, a.result == a.eng.lift(llist.EMPTY, st))
+            if len(calls) != 1 or calls[0]["lt"] is None:
+                return z3.BoolVal(False)
+            cl = calls[0]
+            if which == "sort":
+                want = THREEWAY(a.f, PA, PB) < 0
+            else:
+                kf = z3.Const("arg.keyfn", V.Val)
+                want = THREEWAY(a.cmp, KEYFN(kf, PA), KEYFN(kf, PB)) < 0
+            return z3.And(z3.Length(items) > 0, cl["n"] == z3.Length(items),
+                          z3.Implies(z3.And(ANYIDX >= 0, ANYIDX < z3.Length(items)), cl["item"] == items[ANYIDX]),
+                          cl["lt"] == want, SEQVIEW(a.result) == cl["content"])
+
+        what = "comparator(x, y) < 0" if which == "sort" else "comparator(keyfn(x), keyfn(y)) < 0"
+        c.ensures(f"an empty collection gives the empty list; otherwise the result is the sequence of sorted(<the collection's own elements, in their order>) "
+                  f"under key objects whose < is exactly {what} - so ties keep their input order (sorted is stable) and nothing else decides the order", post)
+        c.replay(lambda m, ctx, ob: SORT_REPLAY)
+        c.replay_without_model = True
+
+
+SORT_REPLAY = r'''
+from basilisp.lang import runtime as rt, vector as vec, keyword as kw, map as lmap
+bad = []
+def chk(desc, got, want):
+    if got != want:
+        bad.append('%s: expected %r, got %r' % (desc, want, got))
+V = vec.v
+try:
+    data = V(V(1, "b"), V(1, "a"), V(0, "z"), V(1, "c"), V(0, "y"))
+    first = lambda x: x[0]
+    chk('sort-by is stable for ties', list(rt.sort_by(first, data)), [V(0, "z"), V(0, "y"), V(1, "b"), V(1, "a"), V(1, "c")])
+    chk('sort-by with a three-way comparator', list(rt.sort_by(first, data, lambda a, b: b - a)), [V(1, "b"), V(1, "a"), V(1, "c"), V(0, "z"), V(0, "y")])
+    chk('sort-by with a boolean comparator', list(rt.sort_by(first, data, lambda a, b: a > b)), [V(1, "b"), V(1, "a"), V(1, "c"), V(0, "z"), V(0, "y")])
+    maps = V(lmap.map({"rank": 1, "n": "x"}), lmap.map({"rank": 0, "n": "y"}), lmap.map({"rank": 1, "n": "w"}))
+    chk('sort-by on elements without an order of their own', [m.val_at("n") for m in rt.sort_by(lambda m: m.val_at("rank"), maps)], ["y", "x", "w"])
+    pairs = V(V(2, "a"), V(1, "b"), V(2, "c"), V(1, "d"))
+    chk('sort with a comparator is stable for ties', list(rt.sort(pairs, lambda a, b: a[0] - b[0])), [V(1, "b"), V(1, "d"), V(2, "a"), V(2, "c")])
+    chk('sort', list(rt.sort(V(3, 1, 2))), [1, 2, 3])
+    chk('sort of nothing', list(rt.sort(V()) or []), [])
+except BaseException as e:
+    bad.append('unexpected %s: %s' % (type(e).__name__, e))
+for line in bad[:10]:
+    print(line)
+print('REPRODUCED' if bad else 'not reproduced')
+'''
